@@ -247,6 +247,10 @@ class Impl:
                                                     kw=lambda t=t: {'labels': self.value(t[1]),
                                                                     'capacities': self.value(t[2])})
                                     for t in s['interfaces']]
+        elif op == 'peer':
+            info['a'] = self.svc(s['a']).node_id
+            info['b'] = self.svc(s['b']).node_id
+            info['pure'] = self.pure_iface({'itype': 'ServicePort', 'kw': s.get('kw')})
         elif op == 'add_switch':
             info['pure_ns'] = self.pure_service({'nstype': s.get('nstype', 'P4')},
                                                 kw=lambda: {'labels': self.value(s.get('nslabels'))})
@@ -306,6 +310,9 @@ class Impl:
             if 'nstype' in s:
                 args['nstype'] = self.enum(f.ServiceType, s['nstype'])
             t.add_switch(**args)
+        elif op == 'peer':
+            a, b = self.svc(s['a']), self.svc(s['b'])
+            a.peer(b, **kw)
         elif op == 'remove_node':
             t.remove_node(s['name'])
         elif op == 'remove_facility':
